@@ -928,6 +928,16 @@ def rule_r17(prog, res):
               c08.rule_r4, prog, Result)
 
 
+def rule_r18(prog, res):
+    from . import c06, c16
+    from ..report import Result
+    res.share('R18', 'length facets are inclusive in the shared text readers '
+              '(C06-R11)', 'C06', c06.rule_r11, prog, Result)
+    res.share('R18', 'the wrapper-key subclass test goes through the '
+              'protocol\'s issubclass, which lets a customised variant stand '
+              'for its original (C16-R5)', 'C16', c16.rule_r5, prog, Result)
+
+
 def run(prog, res, tier):
     res.run_rule(rule_r1, prog, res)
     res.run_rule(rule_r2, prog, res)
@@ -946,6 +956,7 @@ def run(prog, res, tier):
     res.run_rule(rule_r15, prog, res)
     res.run_rule(rule_r16, prog, res)
     res.run_rule(rule_r17, prog, res)
+    res.run_rule(rule_r18, prog, res)
 
 
 _H = 'spyne/protocol/dictdoc/hier.py'
